@@ -73,7 +73,7 @@ impl DiscreteDomainTolMap {
 
 impl ToleranceMap for DiscreteDomainTolMap {
     fn get(&self, x: f64) -> Option<Tolerance> {
-        if self.domain.is_empty() {
+        if self.domain.is_empty() || x < self.domain.values()[0] {
             None
         } else if let Some(i) = self.domain.index_of(x) {
             Some(self.tol_zones[i])
